@@ -1,6 +1,6 @@
 (* C08 — parameter provenance is complete, truthful and depth-ordered. *)
 From Sigtools.Model Require Import Base Bind Roles Algebra.
-From Sigtools.Proofs Require Import Prov.
+From Sigtools.Proofs Require Import Prov ProvKeys ProvNoDup Contrib.
 
 (* merge_depths keeps, for every callable, the smallest depth listed on either side *)
 Theorem C08_depths_min l r f :
@@ -32,3 +32,72 @@ Theorem C08_add_sources m k vs k' :
   src_get (src_add m k vs) k' = if N.eqb k' k then src_get m k ++ vs else src_get m k'.
 Proof. exact (src_get_add m k vs k'). Qed.
 Print Assumptions C08_add_sources.
+
+(* ---- provenance of whole operations, all inputs (Proofs/ProvKeys.v, ProvNoDup.v, Contrib.v): exactly one
+   non-empty entry per parameter and nothing else, every listed callable comes from an input, exactness
+   for consistently named inputs; the three cases where the statement is false of the faithful model are
+   refutations and reproduce on the implementation (see known_findings.json) ---- *)
+Theorem C08_merge_src_ok : forall (s0 s1 : sigT) (ss : list sigT) (r : sigT), merge (s0 :: s1 :: ss) = Ok r -> Forall src_ok (s0 :: s1 :: ss) -> src_ok r.
+Proof. exact @ProvKeys.merge_src_ok. Qed.
+Print Assumptions C08_merge_src_ok.
+
+Theorem C08_merge_src_ok_weak : forall (s0 s1 : sigT) (ss : list sigT) (r : sigT), Forall src_nonempty (s0 :: s1 :: ss) -> merge (s0 :: s1 :: ss) = Ok r -> src_ok r.
+Proof. exact @ProvKeys.merge_src_ok_weak. Qed.
+Print Assumptions C08_merge_src_ok_weak.
+
+Theorem C08_merge_truthful : forall (ss : list sigT) (r : sigT) (x : name) (f : N), merge ss = Ok r -> In f (src_get (srcs r) x) -> exists s : sigT, In s ss /\ In f (src_get (srcs s) x).
+Proof. exact @ProvKeys.merge_truthful. Qed.
+Print Assumptions C08_merge_truthful.
+
+Theorem C08_embed2_src_ok : forall (o i : sigT) (uva uvk : bool) (r : sigT), embed [o; i] uva uvk = Ok r -> valid_sig (params o) = true -> src_ok o -> src_nonempty i -> src_ok r.
+Proof. exact @ProvKeys.embed2_src_ok. Qed.
+Print Assumptions C08_embed2_src_ok.
+
+Theorem C08_embed2_truthful : forall (o i : sigT) (uva uvk : bool) (r : sigT) (x : name) (f : N), embed [o; i] uva uvk = Ok r -> valid_sig (params o) = true -> src_ok o -> In f (src_get (srcs r) x) -> In f (src_get (srcs o) x) \/ In f (src_get (srcs i) x).
+Proof. exact @ProvKeys.embed2_truthful. Qed.
+Print Assumptions C08_embed2_truthful.
+
+Theorem C08_embed_src_ok : forall (s0 : sigT) (ss : list sigT) (uva uvk : bool) (r : sigT), embed (s0 :: ss) uva uvk = Ok r -> valid_sig (params s0) = true -> stars_apart (s0 :: ss) = true -> src_ok s0 -> Forall src_nonempty ss -> src_ok r.
+Proof. exact @ProvKeys.embed_src_ok. Qed.
+Print Assumptions C08_embed_src_ok.
+
+Theorem C08_mask_src_ok : forall (s : sigT) (n : nat) (names0 : list name) (h : hideflags) (r : sigT), mask s n names0 h = Ok r -> valid_sig (params s) = true -> src_ok s -> src_ok r.
+Proof. exact @ProvKeys.mask_src_ok. Qed.
+Print Assumptions C08_mask_src_ok.
+
+Theorem C08_forwards_src_ok : forall (o i : sigT) (n : nat) (names0 : list name) (ha hk uva uvk pt : bool) (r : sigT), forwards o i n names0 ha hk uva uvk pt = Ok r -> valid_sig (params o) = true -> src_ok o -> valid_sig (params i) = true -> src_ok i -> src_ok r.
+Proof. exact @ProvKeys.forwards_src_ok. Qed.
+Print Assumptions C08_forwards_src_ok.
+
+Theorem C08_sig_partial_src_ok : forall (s : sigT) (n : nat) (kw : list (name * N)) (pobj : N) (r : sigT), sig_partial s n kw pobj = Ok r -> valid_sig (params s) = true -> src_ok s -> (forall v : param, varargs (sort_params s) = Some v -> ~ In (pname v) (map fst kw)) -> src_ok r.
+Proof. exact @ProvKeys.sig_partial_src_ok. Qed.
+Print Assumptions C08_sig_partial_src_ok.
+
+Theorem C08_default_sources_ok : forall (f : N) (ps : list param) (rt : option N) (ur : uann) (d : depths), NoDup (names_of ps) -> src_ok {| params := ps; ret := rt; uret := ur; srcs := map (fun p : param => (pname p, [f])) ps; deps := d |}.
+Proof. exact @ProvKeys.default_sources_ok. Qed.
+Print Assumptions C08_default_sources_ok.
+
+Theorem C08_embed_src_ok_refuted : exists s0 s1 s2 r : sigT, valid_sig (params s0) = true /\ valid_sig (params s1) = true /\ valid_sig (params s2) = true /\ src_ok s0 /\ src_ok s1 /\ src_ok s2 /\ embed [s0; s1; s2] true true = Ok r /\ src_mem (srcs r) 1 = false /\ mem 1 (names_of (params r)) = true /\ ~ src_ok r.
+Proof. exact @ProvKeys.embed_src_ok_refuted. Qed.
+Print Assumptions C08_embed_src_ok_refuted.
+
+Theorem C08_sig_partial_keys_refuted : exists (s : sigT) (kw : list (name * N)) (pobj : N) (r : sigT), valid_sig (params s) = true /\ src_ok s /\ sig_partial s 0 kw pobj = Ok r /\ mem 9 (names_of (params r)) = true /\ src_mem (srcs r) 9 = false /\ ~ src_ok r.
+Proof. exact @ProvKeys.sig_partial_keys_refuted. Qed.
+Print Assumptions C08_sig_partial_keys_refuted.
+
+Theorem C08_merge_nodup_refuted : exists a b r : sigT, src_ok a /\ src_ok b /\ (forall x : name, NoDup (src_get (srcs a) x)) /\ (forall x : name, NoDup (src_get (srcs b) x)) /\ merge [a; b] = Ok r /\ src_get (srcs r) 1 = [100; 100].
+Proof. exact @ProvKeys.merge_nodup_refuted. Qed.
+Print Assumptions C08_merge_nodup_refuted.
+
+Theorem C08_merge2_src_shape : forall (a b r : sigT) (x : name), merge [a; b] = Ok r -> valid_sig (params a) = true -> valid_sig (params b) = true -> src_get (srcs r) x = [] \/ src_get (srcs r) x = src_get (srcs a) x \/ src_get (srcs r) x = src_get (srcs b) x \/ src_get (srcs r) x = src_get (srcs a) x ++ src_get (srcs b) x \/ src_get (srcs r) x = src_get (srcs b) x ++ src_get (srcs a) x.
+Proof. exact @ProvNoDup.merge2_src_shape. Qed.
+Print Assumptions C08_merge2_src_shape.
+
+Theorem C08_merge2_nodup_partial : forall (a b r : sigT) (x : name), merge [a; b] = Ok r -> valid_sig (params a) = true -> valid_sig (params b) = true -> NoDup (src_get (srcs a) x) -> NoDup (src_get (srcs b) x) -> (forall f : N, In f (src_get (srcs a) x) -> ~ In f (src_get (srcs b) x)) -> NoDup (src_get (srcs r) x).
+Proof. exact @ProvNoDup.merge2_nodup_partial. Qed.
+Print Assumptions C08_merge2_nodup_partial.
+
+Theorem C08_merge2_src_exact : forall a b : sigT, valid_sig (params a) = true -> valid_sig (params b) = true -> name_aligned (params a) (params b) = true -> role_consistent [params a; params b] = true -> forall (r : sigT) (p : param) (f : N), merge [a; b] = Ok r -> ProvKeys.src_ok a -> ProvKeys.src_ok b -> In p (params r) -> is_named p = true -> In f (src_get (srcs r) (pname p)) <-> In f (src_get (srcs a) (pname p)) \/ In f (src_get (srcs b) (pname p)).
+Proof. exact @Contrib.merge2_src_exact. Qed.
+Print Assumptions C08_merge2_src_exact.
+
